@@ -23,18 +23,19 @@ from harness.lib import common
 
 PROP = 'C20'
 PROP_FILE = 'Props/C20.v'
-THEOREMS = ['C20_gate', 'C20_once_per_origin', 'C20_stored_once', 'C20_one_acquisition_at_a_time',
+THEOREMS = ['C20_gate', 'C20_no_disallowed_request', 'C20_once_per_origin', 'C20_stored_once', 'C20_one_acquisition_at_a_time',
             'C20_robots_request_in_acquisition', 'C20_5xx_postpones', 'C20_never_obtained_never_requested',
             'C20_5xx_retry_budget', 'C20_missing_allows', 'C20_matcher_meets_spec', 'C20_whole_file', 'C20_nofollow',
             'C20_replay_sound']
 TRUSTED = [
-    'hand-written model Model/Robots.v of robotexclusionrulesparser.parse/is_allowed, RobotsTxtPool, RobotsTxtChecker, '
+    'hand-written model Model/Robots.v of robotexclusionrulesparser.parse/is_allowed, RobotsTxtPool, RobotsTxtChecker (incl. its per-origin fetch lock), '
     'the WebSession redirect loop, _process_robots/_process_loop and the scraper nofollow step; tied by this run\'s correspondence',
     'Python library behaviour modelled concretely and only sampled: str.strip/lower on latin-1, re on the fixed directive pattern, '
     'urllib.parse.urlparse/urlunparse/unquote (UTF-8 decode with errors=replace), re.match on escaped-literal/".*" patterns',
     'the gate LTS abstracts the URL table/queue (any URL may be picked at any time), the filters (arbitrary booleans) and the server '
     '(arbitrary responses); asyncio scheduling is modelled as arbitrary interleaving of steps between suspension points',
-    'end-to-end helper harness/fakes/crawl.py (scripted site server, request log)',
+    'end-to-end helper harness/fakes/crawl.py (scripted site server, request log) and harness/fakes/c20_hooks.py (sets PipelineSeries.concurrency, '
+    'which wpull\'s command line never does)',
 ]
 ASSUMPTIONS = [
     'user agent and robots.txt text are latin-1 (robots.txt bodies are decoded as ISO-8859-1 by the parser; str.lower is modelled for code points < 256)',
@@ -788,7 +789,7 @@ def conc_labels(case, res):
                 labels.append('LLock %d' % t)
                 waiting[t] = False
             if e[2]:
-                labels.append('LFetchSend %d' % t)
+                labels.append('LFetchSend %d true' % t)
                 exp.append('EvReq %d (%s) (%s) %s' % (t, item[t], cur[t], cb(hop[t])))
                 pending[t] = True
             else:
@@ -1176,13 +1177,136 @@ def coq_e2e_case(spec, res):
 
 
 def run_e2e(specs):
+    import shutil
+    import tempfile
     from harness.fakes import crawl
+    evdir = tempfile.mkdtemp(prefix='verif-c20-events-')
 
-    def one(s):
-        return crawl.run_crawl({'args': s['args'], 'site': s['site'], 'repo': REPO[0], 'concurrency': s.get('concurrency', 1),
-                                'pre_hooks': ['harness.fakes.c20_hooks.set_concurrency']})
-    with ThreadPoolExecutor(max_workers=6) as ex:
-        return list(ex.map(one, specs))
+    def one(arg):
+        i, s = arg
+        path = os.path.join(evdir, '%d.jsonl' % i)
+        res = crawl.run_crawl({'args': s['args'], 'site': s['site'], 'repo': REPO[0], 'concurrency': s.get('concurrency', 1),
+                               'c20_events': path,
+                               'pre_hooks': ['harness.fakes.c20_hooks.set_concurrency', 'harness.fakes.c20_hooks.instrument']})
+        events = []
+        if os.path.exists(path):
+            for line in open(path):
+                try:
+                    events.append(json.loads(line))
+                except ValueError:
+                    pass
+        res['events'] = events
+        return res
+    try:
+        with ThreadPoolExecutor(max_workers=6) as ex:
+            return list(ex.map(one, enumerate(specs)))
+    finally:
+        shutil.rmtree(evdir, ignore_errors=True)
+
+
+def e2e_labels(spec, res):
+    """event log of the instrumented crawl -> (labels for run_labels, expected model events oldest first, number of workers)"""
+    site = spec['site']
+    stored = set()
+    item, cur, hop, phase, waiting, in_acq, pend_robots, pend_item, last_req = {}, {}, {}, {}, {}, {}, {}, {}, {}
+    labels, exp = [], []
+    workers = set()
+
+    def robots_resp_label(t):
+        x = pend_robots.pop(t, None)
+        if x is None:
+            return
+        if x[0] == 'error':
+            labels.append('LRobotsResp %d %s' % (t, 'RespProtocolError' if x[1] == 'ProtocolError' else 'RespNetworkError'))
+            return
+        _, status, loc, (url, key) = x
+        has = loc not in (None, '')
+        m = re.match(r'https?://([^/:]+)(?::(\d+))?(/.*)$', url)
+        page = site.get(m.group(1), {}).get(m.group(3)) or {'status': 404, 'body': 'not found'}
+        body = (page.get('body') or '').replace('{PORT}', m.group(2) or '').encode('utf-8').hex()
+        labels.append('LRobotsResp %d (Resp %d %s %s (unhex "%s"))' % (
+            t, status, cb(has), '(Some (mkuo %s []))' % coq_origin(_loc_key(loc, key)) if has else 'None', body))
+
+    def lock_if_waiting(t):
+        if waiting.get(t):
+            labels.append('LLock %d' % t)
+            waiting[t] = False
+    for e in res.get('events', []):
+        k, t = e[0], e[1]
+        workers.add(t)
+        if k == 'pick':
+            u = 'mkuo %s (unhex6 "%s")' % (coq_origin(e[3]), e[2])
+            labels.append('LPick %d (%s)' % (t, u))
+            item[t] = cur[t] = u
+            hop[t], phase[t], pend_item[t] = False, 'check', False
+        elif k == 'filters':
+            _, t, v, url6, key, kind = e
+            u = 'mkuo %s (unhex6 "%s")' % (coq_origin(key), url6)
+            if kind == 'initial':
+                labels.append('LCheck %d %s' % (t, cb(v)))
+                waiting[t] = v and tuple(key) not in stored
+                phase[t] = 'check'
+            elif pend_item.get(t):                     # a later iteration of _process_loop: redirect hop (or repeat with credentials)
+                labels.append('LFetchResp %d (FRRedirect (%s))' % (t, u))
+                labels.append('LCheck %d %s' % (t, cb(v)))
+                cur[t], hop[t], pend_item[t], phase[t] = u, True, False, 'check'
+                waiting[t] = v and tuple(key) not in stored
+            elif not v:                                # first iteration: the filters are consulted once more
+                lock_if_waiting(t)
+                labels.append('LFetchSend %d false' % t)
+        elif k == 'fetchstart':
+            labels.append('LLock %d' % t)
+            waiting[t] = False
+            in_acq[t] = e[2]
+            exp.append('EvFetchStart %d %s' % (t, coq_origin(e[2])))
+        elif k == 'req':
+            if in_acq.get(t) is not None:
+                robots_resp_label(t)                   # the previous answer was a redirect that is being followed
+                labels.append('LRobotsSend %d' % t)
+                last_req[t] = (e[2], e[3])
+                exp.append('EvRobotsReq %d %s (mkuo %s [])' % (t, coq_origin(in_acq[t]), coq_origin(e[3])))
+            else:
+                lock_if_waiting(t)
+                labels.append('LFetchSend %d true' % t)
+                exp.append('EvReq %d (%s) (%s) %s' % (t, item[t], cur[t], cb(hop[t])))
+                phase[t] = 'fetch'
+        elif k == 'resp':
+            if in_acq.get(t) is not None:
+                pend_robots[t] = ('resp', e[2], e[3], last_req[t])
+            else:
+                pend_item[t] = True
+        elif k == 'resperr':
+            if in_acq.get(t) is not None:
+                pend_robots[t] = ('error', e[2])
+            else:
+                pend_item[t] = True
+        elif k == 'stored':
+            robots_resp_label(t)
+            exp.append('EvStored %d %s %s' % (t, coq_origin(e[2]), coq_rulesets(e[3])))
+            stored.add(tuple(e[2]))
+            in_acq[t] = None
+        elif k == 'status':
+            if in_acq.get(t) is not None:
+                robots_resp_label(t)
+                in_acq[t] = None
+                exp.append('EvPostponed %d (%s)' % (t, item[t]))
+            elif phase.get(t) == 'check':
+                lock_if_waiting(t)
+                if e[2] == 'skipped':
+                    exp.append('EvSkipped %d (%s)' % (t, item[t]))
+                phase[t] = 'done'
+        elif k == 'end':
+            if pend_item.get(t):
+                labels.append('LFetchResp %d FRDone' % t)
+                pend_item[t] = False
+    return labels, exp, (max(workers) + 1 if workers else 1)
+
+
+def coq_e2e_replay(spec, res):
+    labels, exp, nw = e2e_labels(spec, res)
+    cfg = '{| c_robots := true; c_ua := unhex "%s"; c_max_redirects := 20; c_workers := %d |}' % (
+        spec['meta']['ua'].encode('latin-1').hex(), nw)
+    return 'run_eqb %s [%s] [%s]' % (cfg, '; '.join(labels), '; '.join(exp))
 
 
 def tie_e2e(r, n, stats, with_coq=True):
@@ -1209,13 +1333,16 @@ def tie_e2e(r, n, stats, with_coq=True):
         if blocked and len(log) > 2:
             nontriv.add(m['idx'])
     if with_coq:
-        items = [coq_e2e_case(s, res) for s, res in zip(specs, results)]
-        failing, errors = eval_checks(items, per=40)
+        items = [coq_e2e_case(s, res) for s, res in zip(specs, results)] + [coq_e2e_replay(s, res) for s, res in zip(specs, results)]
+        failing, errors = eval_checks(items, per=20)
         dis += errors
         for idx in sorted(failing):
-            dis.append({'tie': 'e2e-verdicts', 'what': 'model verdict / status table / 5xx retry budget differs on a site',
-                        'idx': specs[idx]['meta']['idx'], 'hosts': {h: hm['robots_body'] for h, hm in specs[idx]['meta']['hosts'].items()},
-                        'ua': specs[idx]['meta']['ua']})
+            sp = specs[idx % len(specs)]
+            dis.append({'tie': 'e2e-verdicts' if idx < len(specs) else 'e2e-replay',
+                        'what': 'model verdict / status table / 5xx retry budget differs on a site' if idx < len(specs) else
+                                'the instrumented run of the whole application is not accepted by the gate LTS with the same events',
+                        'idx': sp['meta']['idx'], 'hosts': {h: hm['robots_body'] for h, hm in sp['meta']['hosts'].items()},
+                        'ua': sp['meta']['ua'], 'concurrency': sp['meta']['concurrency'], 'spec': {'args': sp['args'], 'site': sp['site']}})
     return len(specs), nontriv, dis, viol
 
 
@@ -1233,12 +1360,12 @@ def correspondence(ctx):
     REPO[0] = ctx.repo
     r = common.rng('c20')
     stats = {}
-    n_files = 600 if not ctx.thorough else 6000
-    n_e2e = 60 if not ctx.thorough else 900
+    n_files = 450 if not ctx.thorough else 6000
+    n_e2e = 45 if not ctx.thorough else 900
     with ThreadPoolExecutor(max_workers=3) as ex:
         fa = ex.submit(tie_parser, common.rng('c20-parser'), n_files, stats)
         fu = ex.submit(tie_units, common.rng('c20-units'), 80 if not ctx.thorough else 600, 150 if not ctx.thorough else 1500,
-                       100 if not ctx.thorough else 800, 150 if not ctx.thorough else 2000, stats)
+                       100 if not ctx.thorough else 800, 120 if not ctx.thorough else 2000, stats)
         fb = ex.submit(tie_e2e, common.rng('c20-e2e'), n_e2e, stats)
         na, nta, da, va = fa.result()
         nu, ntu, du, vu = fu.result()
@@ -1267,10 +1394,10 @@ def search(ctx, disagreements):
     stats = {}
     viol = []
     r = common.rng('c20-search')
-    n, nt, d, v = tie_e2e(r, 300, stats, with_coq=False)
+    n, nt, d, v = tie_e2e(r, 150 if not ctx.thorough else 600, stats, with_coq=False)
     viol += v
     # clean parser files against the reference matcher, larger volume
-    cases = [c for c in gen_parser_cases(r, 4000, clean_share=1.0)]
+    cases = [c for c in gen_parser_cases(r, 2000 if not ctx.thorough else 8000, clean_share=1.0)]
     results = impl('parser', cases)
     for c, res in zip(cases, results):
         if 'error' in res:
@@ -1326,13 +1453,22 @@ def replay(ctx, data):
     return False
 
 
-LEVEL_TEXT = ('Coq theorems over the executable model Model/Robots.v: C20_gate (every reachable state of the gate LTS, any number of workers, any '
-              'interleaving, any server: each initial request is preceded by a completed acquisition for its origin whose rules allow it), '
-              'C20_once_per_origin (+_sequential, +C20_concurrent_window), C20_missing_allows, C20_5xx_postpones, C20_whole_file, C20_nofollow, '
-              'C20_matcher_meets_spec (modelled matcher = declarative first-match semantics incl. GYM2008 wildcards); '
-              'C20_no_disallowed_request_refuted records F20 (redirect hops are not robots-checked). Closed under the global context.')
+LEVEL_TEXT = ('Coq theorems over the executable model Model/Robots.v, all for every reachable state of the gate LTS (any number of workers, every '
+              'interleaving of the steps between suspension points, any URLs/filters/server answers/redirect targets): C20_gate (every request of an '
+              'item - initial AND redirect hop - comes after the rules of the requested URL\'s origin were stored by a worker that had requested its '
+              'robots.txt, and those rules allow the URL), C20_once_per_origin + C20_stored_once + C20_one_acquisition_at_a_time + '
+              'C20_robots_request_in_acquisition (robots.txt is never requested, nor an acquisition begun, once the origin\'s rules are stored; at most one '
+              'acquisition per origin in flight), C20_5xx_postpones + C20_never_obtained_never_requested + C20_5xx_retry_budget, C20_missing_allows, '
+              'C20_whole_file, C20_nofollow (every page), C20_matcher_meets_spec (modelled matcher = declarative first-match semantics incl. GYM2008 '
+              'wildcards), C20_replay_sound (runs replayed by the correspondence are runs of the LTS). Closed under the global context. Nothing is '
+              '_partial or _refuted: the two clauses the unchanged code violated (redirect hops unchecked, concurrent first visits each fetching '
+              'robots.txt) are repaired by fix commits and the repaired code is what is modelled.')
 LEVEL_NOTE = ('The robots.txt grammar (third-party parser) and the Python library calls it makes are modelled by hand and validated by correspondence '
-              'only (parsed rulesets and verdicts compared in Coq by vm_compute on generated files); the gate/pool/status/nofollow theorems are about the '
-              'model, tied by function-level runs of the real RobotsTxtPool/RobotsTxtChecker/WebSession/HTMLScraper and by end-to-end crawls whose '
-              'request logs are checked against the property predicate and the model-predicted fetch set.')
-TECHNIQUE = 'Coq: invariants by induction over an LTS of the robots gate; reflection proof of the wildcard matcher; vm_compute correspondence; end-to-end differential crawls'
+              'only (parsed rulesets and verdicts compared in Coq by vm_compute on generated files). The gate/pool/lock/status/nofollow theorems are '
+              'about the model; it is tied to the code by (i) function-level runs of the real RobotsTxtPool / RobotsTxtChecker / WebSession / HTMLScraper, '
+              'including several asyncio tasks sharing one checker under scripted delays whose observed event order is replayed through the LTS step '
+              'function inside Coq (accepted + same events), and (ii) end-to-end crawls (1-4 real workers, slow robots.txt answers, redirects to '
+              'disallowed URLs, cookies, 5xx with retry rows) whose request logs and URL table rows are checked against the property predicate '
+              '(independent Python matcher) and the model-predicted fetch set. _process_robots/_process_loop (web.py) are covered by (ii) only.')
+TECHNIQUE = ('Coq: invariants by induction over an LTS of the robots gate (pool, per-origin fetch lock, workers); reflection proof of the wildcard '
+             'matcher; vm_compute correspondence incl. trace replay of observed concurrent runs; end-to-end differential crawls')
